@@ -10,4 +10,3 @@ func (rm *RegistrationManager) VerifStateKey() uint64 {
 	}
 	return h ^ rm.registeredDecoys.m.VerifState()<<7
 }
-
